@@ -8,6 +8,7 @@ import (
 // Mutex replaces sync.Mutex in the instrumented repository.
 type Mutex struct {
 	real   sync.Mutex
+	epoch  int64 // execution in which the model state below is valid (objects may outlive an execution)
 	held   bool
 	owner  int
 	vc     [MaxThreads]uint32
@@ -36,6 +37,18 @@ func resetGlobalMutexes() {
 	}
 }
 
+// fresh resets the model state of a mutex that was last used in an earlier
+// execution (e.g. a mutex inside a class object): an execution that was cut
+// while it was held must not leak the held flag or its clock.
+func (m *Mutex) fresh(s *sched) {
+	if m.epoch != s.epoch {
+		m.epoch = s.epoch
+		m.held = false
+		m.owner = 0
+		m.vc = [MaxThreads]uint32{}
+	}
+}
+
 func (m *Mutex) Lock() {
 	s := S
 	if s == nil || s.cur == nil {
@@ -45,6 +58,7 @@ func (m *Mutex) Lock() {
 	if s.aborting {
 		return
 	}
+	m.fresh(s)
 	t := s.cur
 	if !(m.global && s.cfg.Elide && !m.held) {
 		t.pend = pending{kind: opLock, obj: m, enabled: func() bool { return !m.held }}
@@ -72,6 +86,7 @@ func (m *Mutex) TryLock() bool {
 	if s.aborting {
 		return true
 	}
+	m.fresh(s)
 	t := s.cur
 	t.pend = pending{kind: opYield, obj: m}
 	s.point(t)
@@ -96,6 +111,7 @@ func (m *Mutex) Unlock() {
 	if s.aborting {
 		return
 	}
+	m.fresh(s)
 	t := s.cur
 	if !m.held {
 		panic("sync: unlock of unlocked mutex")
@@ -118,10 +134,19 @@ func (m *Mutex) Unlock() {
 // RWMutex replaces sync.RWMutex.
 type RWMutex struct {
 	real    sync.RWMutex
+	epoch   int64
 	writer  bool
 	readers int
 	vc      [MaxThreads]uint32 // released by writers
 	rvc     [MaxThreads]uint32 // released by readers
+}
+
+func (m *RWMutex) fresh(s *sched) {
+	if m.epoch != s.epoch {
+		m.epoch = s.epoch
+		m.writer, m.readers = false, 0
+		m.vc, m.rvc = [MaxThreads]uint32{}, [MaxThreads]uint32{}
+	}
 }
 
 func (m *RWMutex) Lock() {
@@ -133,6 +158,7 @@ func (m *RWMutex) Lock() {
 	if s.aborting {
 		return
 	}
+	m.fresh(s)
 	t := s.cur
 	t.pend = pending{kind: opLock, obj: m, enabled: func() bool { return !m.writer && m.readers == 0 }}
 	s.point(t)
@@ -150,6 +176,7 @@ func (m *RWMutex) Unlock() {
 	if s.aborting {
 		return
 	}
+	m.fresh(s)
 	t := s.cur
 	if !m.writer {
 		panic("sync: Unlock of unlocked RWMutex")
@@ -172,6 +199,7 @@ func (m *RWMutex) RLock() {
 	if s.aborting {
 		return
 	}
+	m.fresh(s)
 	t := s.cur
 	t.pend = pending{kind: opRLock, obj: m, enabled: func() bool { return !m.writer }}
 	s.point(t)
@@ -188,6 +216,7 @@ func (m *RWMutex) RUnlock() {
 	if s.aborting {
 		return
 	}
+	m.fresh(s)
 	t := s.cur
 	if m.readers == 0 {
 		panic("sync: RUnlock of unlocked RWMutex")
